@@ -23,9 +23,31 @@ def _purge():
         del sys.modules[k]
 
 
+def fake_rtlsdr():
+    """pyrtlsdr is not installed (and there is no device): a stand-in module so that RtlReader / RtlSdrSource can be built
+    by their REAL constructors - every attribute the constructor sets exists, as in production - instead of object.__new__."""
+    import types
+    if "rtlsdr" not in sys.modules or getattr(sys.modules["rtlsdr"], "__verif_fake__", False):
+        m = types.ModuleType("rtlsdr")
+        m.__verif_fake__ = True
+
+        class RtlSdr:                       # noqa: D401 - attribute bag; the checks never read samples through it
+            def __init__(self, *a, **k):
+                self.sample_rate = self.center_freq = self.gain = None
+
+            def read_samples_async(self, *a, **k):
+                raise RuntimeError("no SDR device in the verification harness")
+
+            def close(self):
+                pass
+        m.RtlSdr = RtlSdr
+        sys.modules["rtlsdr"] = m
+
+
 def load(config="P"):
     """Return the freshly imported pyModeS package in configuration P or C."""
     _purge()
+    fake_rtlsdr()
     if SRC in sys.path:
         sys.path.remove(SRC)
     sys.path.insert(0, SRC)
